@@ -1,7 +1,7 @@
 """C01 - generated bindings compile (narrow kernel: identifier mangling; plus the compile-critical templates checked under C03)."""
 import os, re
 from common import *
-LEVEL_TEXT = 'bounded model checking of the escaping DECISION of BindgenContext::rust_mangle (its condition, sliced verbatim) on all identifiers of length 1..8 over [a-z0-9_$@?SA]: every keyword / name with $ @ ? is escaped, nothing else is (beyond the documented extras)'
+LEVEL_TEXT = 'bounded model checking of the escaping DECISION of BindgenContext::rust_mangle (its condition, sliced verbatim) on all identifiers of length 1..8 over [a-z0-9_$@?SA]: every keyword / name with $ @ ? is escaped, nothing else is (beyond the documented extras); and of the real Module::codegen / CodegenResult::inner: helper types used by items nested in namespaces are defined exactly once at the root'
 OUTSIDE = ['the escaping itself (String::replace x3 + push): not encodable under CBMC (measured: no result in 19 min for 2-byte names)', 'path resolution, generics / PhantomData, derive soundness as rustc sees it, every quote! template: i.e. almost all of the property', 'name uniqueness (overload counters, seen sets): real hash maps and item ids',
            'injectivity of mangling is not claimed: `a$` and `a@` collide by design']
 EXPLANATION = 'String LENGTH is the harness parameter; every byte is symbolic over the identifier alphabet plus the three characters clang accepts but Rust does not. Oracle: keyword list of the Rust Reference (editions 2015-2024), written in the harness.'
@@ -81,4 +81,31 @@ def build(tier, seed):
         kk.name = 'accessor_templates'
         return kk
     ks.append(kernel_or_error('accessor_templates', templates))
+    def modules():
+        G = os.path.dirname(os.path.dirname(os.path.abspath(__file__)))
+        st = extract_from('codegen/mod.rs', r"^struct CodegenResult<'a> \{")
+        meths = [extract_from('codegen/mod.rs', r'^    fn %s[<(]' % n) for n in ('new', 'saw_bindgen_union', 'saw_incomplete_array', 'saw_objc', 'saw_block', 'saw_bitfield_unit', 'inner')]
+        deref = extract_from('codegen/mod.rs', r"^impl ops::Deref for CodegenResult<'_> \{") + '\n' + extract_from('codegen/mod.rs', r"^impl ops::DerefMut for CodegenResult<'_> \{")
+        mc = extract_from('codegen/mod.rs', r'^impl CodeGenerator for Module \{')
+        h = open(os.path.join(G, 'harness', 'c01_modules.rs')).read()
+        levels = []
+        for L in range(3):
+            t = re.sub(r'\bModule\b', 'Module%d' % L, mc)
+            t = re.sub(r'\bItem\b', 'Item%d' % L, t)
+            t = re.sub(r'&BindgenContext\b', '&Ctx%d' % L, t)
+            t = t.replace('type Extra = Item%d;' % L, 'type Extra = Item%d; type Ctx = Ctx%d;' % (L, L))
+            levels.append(t)
+        if 'BindgenContext' in ''.join(levels):
+            raise SliceError('Module::codegen: unexpected use of BindgenContext')
+        h = h.replace('/*STRUCT*/', st).replace('/*METHODS*/', '\n'.join(meths)).replace('/*DEREF*/', deref).replace('/*MODULE_CODEGEN_LEVELS*/', '\n'.join(levels))
+        kk = Kernel(name='module_helpers')
+        kk.files = {'src/lib.rs': h}
+        kk.harnesses = [H('helpers_defined_depth%d' % dd, timeout=900, desc='chain of %d module(s) ending in an item: every helper the item uses is defined exactly once where uses look for it (real Module::codegen, CodegenResult::inner)' % dd,
+                          sample={'modules_on_chain': dd, 'helper_masks': 'all', 'options': 'all'}) for dd in (1, 2, 3)]
+        kk.encoded = [enc('codegen/mod.rs', 'struct CodegenResult', st), enc('codegen/mod.rs', 'CodegenResult::{new, saw_*, inner}', '\n'.join(meths)), enc('codegen/mod.rs', 'Deref / DerefMut for CodegenResult', deref), enc('codegen/mod.rs', 'impl CodeGenerator for Module', mc)]
+        kk.stubs = ['rename per nesting level: Module / Item / BindgenContext -> Module<L> / Item<L> / Ctx<L> (breaks the Module -> Item -> Module recursion for CBMC; text otherwise verbatim)', 'proc_macro2::TokenStream: a summary (helpers used / defined here / defined inside); quote!{pub mod ..} sums its inner items', 'leaf items: emit one item using a symbolic set of helpers and announce them through the real saw_* methods',
+                    'utils::prepend_*: insert a definition marker at the front', 'Vec: running summary of what was pushed; HashSet / HashMap / DynamicItems: unit stubs (not used on this path)', 'module_lines / canonical names: tokens']
+        kk.bounds = ['chains of 1..3 nested modules with one leaf item; helper use sets: all; one child per module']
+        return kk
+    ks.append(kernel_or_error('module_helpers', modules))
     return ks
